@@ -100,6 +100,37 @@ def outcome(raw):
         return json.dumps(["exc", type(e).__name__, str(e)])
 
 
+class Budget(BaseException):
+    """tokenising took longer than the (very generous) budget: the scan does not terminate in practice"""
+
+
+_TIMEOUTS = [0]
+
+
+def _tokenise_within_budget(s, seconds=6):
+    """StringArgs(s) under an alarm; a healthy scan of these inputs takes microseconds"""
+    import signal
+
+    from clikit.args import StringArgs
+
+    if _TIMEOUTS[0] >= 3:  # after three budget overruns further probes would only burn time
+        raise Budget()
+
+    def on_alarm(signum, frame):
+        raise Budget()
+
+    old = signal.signal(signal.SIGALRM, on_alarm)
+    signal.setitimer(signal.ITIMER_REAL, seconds)
+    try:
+        return StringArgs(s)
+    except Budget:
+        _TIMEOUTS[0] += 1
+        raise
+    finally:
+        signal.setitimer(signal.ITIMER_REAL, 0)
+        signal.signal(signal.SIGALRM, old)
+
+
 def observe(s, intent=None, styles=None, seps=None, lead="", trail="", full_run=False):
     """one event for TokenizerTrace"""
     from clikit.args import ArgvArgs, StringArgs
@@ -120,12 +151,15 @@ def observe(s, intent=None, styles=None, seps=None, lead="", trail="", full_run=
         "outArgv": "",
     }
     try:
-        sa = StringArgs(s)
+        sa = _tokenise_within_budget(s) if len(s) > 20 else StringArgs(s)
         toks0, opt0 = [chars(t) for t in sa.tokens], [chars(t) for t in sa.option_tokens]
         other = StringArgs("zz 'q q' -- w")  # tokenising something else must not disturb the first object
         TokenParser().parse("k k")
         ev["obs"] = {"kind": "ok", "cls": "", "toks": toks0, "opt": opt0, "toksAfter": [chars(t) for t in sa.tokens]}
         del other
+    except Budget:
+        ev["obs"] = {"kind": "exc", "cls": "DoesNotTerminate", "toks": [], "opt": [], "toksAfter": []}
+        sa = None
     except Exception as e:  # noqa: every exception kind is an observation
         ev["obs"] = {"kind": "exc", "cls": type(e).__name__, "toks": [], "opt": [], "toksAfter": []}
         sa = None
@@ -251,6 +285,14 @@ def run(ctx):
     nstr = 1500 if quick else 20000
     for _ in range(nstr):
         s = "".join(ctx.rng.choice(alpha) for _j in range(ctx.rng.randint(0, 14)))
+        traces.append([observe(s)])
+        cases.append({"kind": "string", "s": s})
+        ctx.count()
+        ctx.nontriv(s)
+    # long tokens: termination in practice (a scan whose cost explodes with the length of a plain run shows only here)
+    for k in range(60 if quick else 400):
+        run = "".join(ctx.rng.choice("abcdefghijklmnopqrstuvwxyz-=") for _j in range(ctx.rng.randint(25, 70)))
+        s = ctx.rng.choice(["", "x ", "--"]) + run + ctx.rng.choice(['"some value"', "'v'", "\\q", '"', "\\", " 'a b' c"])
         traces.append([observe(s)])
         cases.append({"kind": "string", "s": s})
         ctx.count()
